@@ -1,6 +1,7 @@
 package main
 
 import (
+	"sync"
 	"bytes"
 	"context"
 	"fmt"
@@ -195,6 +196,12 @@ func Select(arr, idx *Term, elem *Sort) *Term {
 			return T(elem, a[2])
 		}
 		if isNumeral(a[1]) && isNumeral(idx.S) {
+			cur = a[0]
+			continue
+		}
+		// two different references that were both produced by an allocation are distinct (each new one lies
+		// strictly beyond the allocation frontier that includes all earlier ones)
+		if a[1] != idx.S && isAllocRef(a[1]) && isAllocRef(idx.S) {
 			cur = a[0]
 			continue
 		}
@@ -499,4 +506,11 @@ func sanitize(s string) string {
 		out = out[:180]
 	}
 	return out
+}
+
+var allocRefs sync.Map // names of the references created by newRef
+
+func isAllocRef(s string) bool {
+	_, ok := allocRefs.Load(s)
+	return ok
 }
